@@ -265,11 +265,11 @@ def eq_obligations(rep):
     def post_eqprint(ex, o):
         if o.kind != 'return':
             return f'raises {o.value.__name__}'
-        if o.value is True:
-            f = z3.Function('to_single_line', z3.StringSort(), z3.StringSort())
-            ok, _ = ex.valid(f(z3.String('str(x)')) == f(z3.String('str(y)')), pc=o.pc)
-            if not ok:
-                return 'x == y can be True while the single-line SQL strings differ'
+        val = o.value.t if isinstance(o.value, SymVal) else z3.BoolVal(o.value is True)
+        f = z3.Function('to_single_line', z3.StringSort(), z3.StringSort())
+        ok, _ = ex.valid(z3.Implies(val, z3.And(f(z3.String('str(x)')) == f(z3.String('str(y)')), z3.String('to_tree(x)') == z3.String('to_tree(y)'))), pc=o.pc)
+        if not ok:
+            return 'x == y can be True while the single-line SQL strings (or the trees) of x and y differ'
         return None
     ex = pysym.Executor()
     try:
@@ -278,7 +278,7 @@ def eq_obligations(rep):
         v = pysym.Verdict(FAILED, bad) if bad else pysym.Verdict(PROVED, f'{len(outs)} path(s)')
     except (Unsupported, PathLimit) as e:
         v = pysym.Verdict(UNDECIDED, str(e))
-    _emit(rep, 'C18.eq.print.ASTNode', v, 'mindsdb_sql.parser.ast.base:ASTNode.__eq__', 'ensures x == y => same single-line SQL')
+    _emit(rep, 'C18.eq.print.ASTNode', v, 'mindsdb_sql.parser.ast.base:ASTNode.__eq__', 'ensures x == y => same single-line SQL and same to_tree()', replay=replay_eq_print)
 
     # Result
     def mk_res(same):
@@ -388,6 +388,50 @@ def eq_obligations(rep):
     _emit(rep, 'C18.eq.fields.TableColumn', v, 'mindsdb_sql.parser.ast.create:TableColumn.__eq__', 'ensures x == y => all constructor attributes equal',
           replay=replay_tablecolumn)
 
+    # PlanStep: the result of an executed step (`result_data`, stored by set_result) is not part of its identity - on either side
+    for who in ('x', 'y', 'both', 'same-object'):
+        def rd_run(ex, who=who):
+            x = SymObj({ProjectStep}, 'x', prov='param')
+            y = x if who == 'same-object' else SymObj({ProjectStep}, 'y', prov='param')
+            for o_, nm in ((x, 'x'), (y, 'y')):
+                o_.closed = True
+                for f in ['step_num', 'columns', 'dataframe', 'ignore_doubles']:
+                    o_.fields.setdefault(f, pysym.mk_int(f'{nm}.{f}'))
+            if who in ('x', 'both', 'same-object'):
+                x.fields['result_data'] = pysym.mk_int('x.result_data')
+            if who in ('y', 'both'):
+                y.fields['result_data'] = pysym.mk_int('y.result_data')
+            clo = pysym.closure_of('mindsdb_sql.planner.steps', 'PlanStep.__eq__')
+            clo.no_stub = True
+            r1 = ex.call_closure(clo, [x, y], {})
+            r2 = ex.call_closure(clo, [y, x], {})
+            # with equal attributes the steps must compare equal whatever result either of them holds
+            for f in ['step_num', 'columns', 'dataframe', 'ignore_doubles']:
+                if x is not y:
+                    ex.assume(z3.Int(f'x.{f}') == z3.Int(f'y.{f}'))
+            return (r1, r2)
+        ex = pysym.Executor()
+        try:
+            outs = ex.explore(rd_run)
+            bad = None
+            for o in outs:
+                if o.kind != 'return':
+                    bad = f'raises {o.value.__name__}'
+                    break
+                for r_ in o.value:
+                    b_ = r_.t if isinstance(r_, SymVal) else z3.BoolVal(r_ is True)
+                    ok, _ = ex.valid(b_, pc=o.pc)
+                    if not ok:
+                        bad = f'steps with equal attributes compare {o.value!r} when result_data is held by {who}: the result of an executed step takes part in equality (not reflexive / symmetric for executed steps)'
+                        break
+                if bad:
+                    break
+            v = pysym.Verdict(FAILED, bad) if bad else pysym.Verdict(PROVED, f'{len(outs)} path(s)', ex.solver_time)
+        except (Unsupported, PathLimit) as e:
+            v = pysym.Verdict(UNDECIDED, f'{type(e).__name__}: {e}')
+        _emit(rep, f'C18.eq.result-data.PlanStep.{who}', v, 'mindsdb_sql.planner.steps:PlanStep.__eq__',
+              'ensures result_data is ignored on both operands: steps equal in every other attribute compare True in both directions', replay=replay_result_data)
+
     # PlanStep with differing attribute sets
     def ps_run(ex):
         x = SymObj({ProjectStep}, 'x', prov='param')
@@ -475,6 +519,24 @@ def _lens(m, lx, ly):
         return f' [len x={m.eval(lx, model_completion=True)}, len y={m.eval(ly, model_completion=True)}]'
     except Exception:
         return ''
+
+
+def replay_result_data():
+    from mindsdb_sql.planner.steps import ProjectStep
+    a = ProjectStep(columns=[], dataframe=None)
+    b = ProjectStep(columns=[], dataframe=None)
+    a.set_result([{'x': 1}]) if hasattr(a, 'set_result') else setattr(a, 'result_data', [{'x': 1}])
+    r = (a == a, a == b, b == a)
+    return {'input': 'a = ProjectStep([], None) holding a result; b = ProjectStep([], None)', 'fires': r != (True, True, True), 'observed': f'(a == a, a == b, b == a) = {r}', 'expected': '(True, True, True)'}
+
+
+def replay_eq_print():
+    from mindsdb_sql import parse_sql
+    for a, b in (('SELECT a FROM t WHERE a = 1 OR b = 2', 'SELECT a FROM t WHERE (a = 1 OR b = 2)'), ('SELECT f(a) FROM t', 'SELECT db.f(a) FROM t')):
+        x, y = parse_sql(a), parse_sql(b)
+        if (x == y) and str(x) != str(y):
+            return {'input': f'parse_sql({a!r}) == parse_sql({b!r})', 'dialect': 'mindsdb', 'fires': True, 'observed': f'True although they print `{x}` and `{y}`', 'expected': 'False'}
+    return {'input': 'trees differing only in parentheses / function namespace', 'dialect': 'mindsdb', 'fires': False, 'observed': 'unequal'}
 
 
 def replay_plan_sym(nx, ny):
